@@ -388,16 +388,46 @@ func CheckC20Method(p *Pkg, f *File, checker string, d Diag) *C20Finding {
 	if ms == nil || !d.Pos.IsValid() || Fset.File(d.Pos) != Fset.File(f.AST.Pos()) {
 		return nil
 	}
-	var found *C20Finding
+	// the flagged node: the outermost expression or statement that starts at the diagnostic position
+	var flagged ast.Node
 	ast.Inspect(f.AST, func(n ast.Node) bool {
-		if n == nil || found != nil {
+		if n == nil || flagged != nil {
 			return false
 		}
 		if _, isFile := n.(*ast.File); !isFile && (n.Pos() > d.Pos || n.End() <= d.Pos) {
 			return false
 		}
+		switch n.(type) {
+		case ast.Expr, ast.Stmt:
+			if n.Pos() == d.Pos {
+				flagged = n
+				return false
+			}
+		}
+		return true
+	})
+	if flagged == nil {
+		return nil
+	}
+	// a call x.M(...) at the flagged position decides alone (the rule matched that call); a flagged STATEMENT (if-init and
+	// statement-list patterns) is about every x.M(...) in its header and body whose M is one of the group's methods
+	var found *C20Finding
+	_, stmtShaped := flagged.(ast.Stmt)
+	ast.Inspect(flagged, func(n ast.Node) bool {
+		if c, ok := n.(*ast.CallExpr); ok && c.Pos() == d.Pos {
+			stmtShaped = false // the statement begins with the call the rule matched
+		}
+		return true
+	})
+	ast.Inspect(flagged, func(n ast.Node) bool {
+		if n == nil || found != nil {
+			return false
+		}
+		if _, lit := n.(*ast.FuncLit); lit {
+			return false
+		}
 		c, ok := n.(*ast.CallExpr)
-		if !ok || c.Pos() != d.Pos {
+		if !ok || (!stmtShaped && c.Pos() != d.Pos) {
 			return true
 		}
 		sel, ok := c.Fun.(*ast.SelectorExpr)
